@@ -322,9 +322,9 @@ def parts():
     return [
         Part("duration_grid", body, items=items_grid, exhaustive=True),
         Part("cycle_sweep", body, items=items_cycle_sweep, exhaustive=True),
-        Part("repcode_full", body, strategy=strat_full, quick=80, thorough=450),
+        Part("repcode_full", body, strategy=strat_full, quick=70, thorough=450),
         Part("repcode_full_large", body, strategy=strat_full_large, quick=0, thorough=60),
-        Part("repcode_simplified", body, strategy=strat_simplified, quick=90, thorough=600),
+        Part("repcode_simplified", body, strategy=strat_simplified, quick=80, thorough=600),
         Part("multi_round", body, strategy=strat_multi, quick=20, thorough=100),
-        Part("calibration", body, strategy=strat_calibration, quick=150, thorough=800),
+        Part("calibration", body, strategy=strat_calibration, quick=120, thorough=800),
     ]
